@@ -50,6 +50,12 @@ WAITCOND_RULE = (" Plus a stepper over WaitCond itself (1-5 waiters with nil/bac
                  "without any Broadcast, predicate always under the lock, no watcher goroutine outlives its call.")
 
 
+def leakjob(name, test, quick, thorough, owner):
+    """Run another property's engine under C12: only its goroutine-leak assertions count (retagged to C12)."""
+    return {"name": name, "test": test, "checks": {"quick": quick, "thorough": thorough}, "shards": {"quick": 4, "thorough": 8},
+            "env": {"VKIT_PROFILE": "C12"}, "retag": {"^%s/(goroutine-leak|leak-after-cancel)" % owner: "C12+%s/\\1" % owner}}
+
+
 def chanstep(prof, quick, thorough):
     return {"name": "chanstep", "test": "TestChanStep", "steps": 40,
             "checks": {"quick": quick, "thorough": thorough},
@@ -213,8 +219,11 @@ CONFIG = {
     "C02": {
         "rule": BUF_MODEL + "non-trivial = a rollback of >=2 uncommitted values followed by a re-read, or a Range ended by a callback panic; distinct = hash of the executed op trace." + BUF_FREE +
                 " Plus conslin: 2-3 goroutines sharing ONE consumer (Get/Commit/Rollback/Diff scripts) with a concurrent producer; the recorded history is checked for linearizability "
-                "against the sequential (put, committed, uncommitted) model by porcupine; non-trivial = operations of different goroutines overlapped.",
-        "jobs": [{"name": "conslin", "test": "TestConsLin", "checks": {"quick": 30000, "thorough": 1500000}, "shards": {"quick": 6, "thorough": 16}, "stall_sig": "C02/stall"},
+                "against the sequential (put, committed, uncommitted) model by porcupine; non-trivial = operations of different goroutines overlapped. "
+                "Plus range_faulty: package Range over a scripted faulty Consumer (Get/Commit/Rollback failures at drawn calls, callback continue/stop/panic/cancel, ctx nil/live/cancelled): "
+                "the recorded call order must be Get, fn, Commit per item with Rollback exactly on failure; non-trivial = the range ended by a Get/Commit failure or a panic.",
+        "jobs": [{"name": "range_faulty", "test": "TestC02RangeFaulty", "checks": {"quick": 40000, "thorough": 2000000}, "shards": {"quick": 2, "thorough": 8}},
+                 {"name": "conslin", "test": "TestConsLin", "checks": {"quick": 30000, "thorough": 1500000}, "shards": {"quick": 6, "thorough": 16}, "stall_sig": "C02/stall"},
                  buffree("C02", 12000, 600000), bufstep("C02", 24000, 800000)],
     },
     "C03": {
@@ -242,8 +251,17 @@ CONFIG = {
                  {"name": "probe", "test": "TestC05Probe", "checks": {"quick": 8000, "thorough": 200000}, "shards": {"quick": 4, "thorough": 16}}],
     },
     "C12": {
-        "rule": BUF_MODEL + "non-trivial = a Close launched while another op on the handle was in flight or uncommitted reads existed AND >=2 handles closed in non-creation order; distinct = hash of the executed op trace. " + CHAN_MODEL + WAITCOND_RULE,
-        "jobs": [buffree("C12", 12000, 600000), bufstep("C12", 24000, 800000), chanstep("C12", 12000, 400000), waitcond("C12", 8000, 300000)],
+        "rule": BUF_MODEL + "non-trivial = a Close launched while another op on the handle was in flight or uncommitted reads existed AND >=2 handles closed in non-creation order; distinct = hash of the executed op trace. " + CHAN_MODEL + WAITCOND_RULE +
+                " The goroutine-leak oracles of the Exclusive, context-combinator, Workers, Worker, ExponentialRetry and LinearAttempt engines (see C09/C10, C16, C14, C17, C18, C20) "
+                "are run under this property as well: after every handle is closed / context cancelled / call returned, the bubble must hold no other goroutine.",
+        "jobs": [buffree("C12", 12000, 600000), bufstep("C12", 24000, 800000), chanstep("C12", 12000, 400000), waitcond("C12", 8000, 300000),
+                 # the goroutine-leak oracles of the engines written for the other goroutine-starting APIs
+                 dict(exclstep("C12", 6000, 200000), name="leak_exclusive"),
+                 leakjob("leak_context", "TestC16Context", 8000, 300000, "C16"),
+                 leakjob("leak_workers", "TestC14Workers", 4000, 150000, "C14"),
+                 leakjob("leak_worker", "TestC17Worker", 6000, 200000, "C17"),
+                 leakjob("leak_retry", "TestC18Retry", 6000, 200000, "C18"),
+                 leakjob("leak_attempt", "TestC20Attempt", 6000, 200000, "C20")],
     },
     "C19": {
         "rule": ("rapid-generated function signatures (reflect.FuncOf over a 19-type grammar, 0-4 params, optional "
